@@ -14,6 +14,7 @@ class Context(object):
         self.tier = tier
         self.program = Program()
         self.folder = Folder(self.program)
+        self.folder.apply_class_creation_hooks()
         self.report = Report(pid, tier)
         self._inv = None
         self._lm = None
